@@ -246,6 +246,7 @@ def input_forms_leg(tier: str, acc: Acc):
         for i, (label, src) in enumerate(progs):
             ref = _convert(AST2SCFG, src)
             forms = {
+                "source-string/second-build": _convert(AST2SCFG, src),      # history: the same text converted again
                 "ast-list": _convert(AST2SCFG, ast.parse(src).body),
                 "function/top-level": _convert(AST2SCFG, getattr(mod, f"top_{i}")),
                 "function/method": _convert(AST2SCFG, getattr(mod.K, f"meth_{i}")),
